@@ -1064,15 +1064,16 @@ theorem client_auth_site_unreachable_under_other_sni (ps : List Policy) (sites :
   rw [hp] at hp'
   cases hp'
 
-/-- tie to the source, regenerated on every run: `enforcementHandler` reads the request's `TLS`
-    (`.ServerName`) and `Host` and the server's `StrictSNIHost` — no context value, no other field,
-    no package-level state (its free identifiers are packages, `Error`, `isASCII` and constants) —
-    and writes only `r.Close`; its body is the `if` and the call of the next handler. -/
+/-- tie to the source, regenerated on every run, as SETS over `enforcementHandler` and every
+    same-package function it statically calls (so helpers / renamed locals do not matter): on the
+    request it reads `TLS` (`.ServerName`) and `Host` only, on the server `StrictSNIHost` only, no
+    context value, no package-level variable; the only field it writes is `r.Close`. -/
 theorem enforcement_reads_only_sni_and_host_matches_source :
-    Gen.enforcementSelectors = ["next.ServeHTTP", "r.Close", "r.Host", "r.TLS", "r.TLS.ServerName", "s.StrictSNIHost"] ∧
-    Gen.enforcementWrites = ["r.Close"] ∧
-    Gen.enforcementFreeIdents = ["Error", "fmt", "http", "isASCII", "net", "nil", "strings", "true"] ∧
-    Gen.enforcementTopStmts = 2 := by decide
+    Gen.enforcementRequestReads = ["Request.Host", "Request.TLS", "Request.TLS.ServerName"] ∧
+    Gen.enforcementServerReads = ["Server.StrictSNIHost"] ∧
+    Gen.enforcementContextReads = [] ∧
+    Gen.enforcementPackageVars = [] ∧
+    Gen.enforcementWrites = ["Request.Close"] := by decide
 
 /-- … and the only per-connection value caddy's http.Server puts into a request's context is the
     `net.Conn` itself (`ConnCtxKey`; `ServeHTTP` reads r.TLS from it when net/http left it nil):
